@@ -30,6 +30,7 @@ struct Interp {
         dir = config().scratch_dir + "/c11-" + std::to_string(getpid());
         mkdir(dir.c_str(), 0700);
         VT_CHECK(ctx, chdir(dir.c_str()) == 0, "harness", "chdir failed");
+        setenv("VT_LONG", std::string(700, 'L').c_str(), 1);   // a value much longer than any line that mentions it
     }
     static std::string expand(const std::string &unit, long rep) { std::string s; if (rep < 0) rep = 0; s.reserve(unit.size() * (size_t)rep); for (long i = 0; i < rep; i++) s += unit; return s; }
 
@@ -250,6 +251,7 @@ rc::Gen<std::string> gen_line_unit() {
     return rc::gen::exec([]() {
         static const std::vector<std::string> kw = {"begin main", "begin ctx3", "begin nosuch", "begin ", "begin", "end", "end x", "%include f.cfg", "%include nosuch.cfg", "%include", "%preproc", "%", "%put(k v)", "%get(k)", "%random(a b)",
             "value $HOME ~ \\n", "text `", "'unterminated", "a ${", "%exec", "<other-1.0>", "# comment", "", " ", "\t", "%get(", "b", "e", "%dirscan(.)", "%version()", "x%appname()y",
+            "%put(k $VT_LONG)", "x %get(nosuch ${VT_LONG}) y", "%put(j %get(k)%get(k))",   // call arguments that grow when expanded
             "%e(echo hi)", "%ex(touch marker)", "%exe(x)", "x %g(k)", "%pu(k v)", "%ver()", "%r(a b)", "%inc f.cfg", "%pre cat"};   // prefixes of directive / built-in names are not those names
         int k = (int)*range(0, 9);
         if (k < 6) return std::string(*rc::gen::elementOf(kw));
